@@ -9,6 +9,7 @@
   the `e2e` stream, labelled a test.
 -/
 import PowHsm.Admin.Gather
+import PowHsm.Proofs.Base64
 namespace PowHsm
 namespace Props.C15
 open Gather
@@ -80,6 +81,18 @@ theorem too_many_pages_refused (chunks : List Bytes) (k : Nat) (hk : k < chunks.
         simp only [paginate, reassemble, if_true]
         rw [ih k (by simpa using hk)]
         simp
+
+/-- **the certificate file keeps every X.509 element's bytes**: a version-2 X.509 element is written
+    as the base64 text of its DER bytes (`to_dict`: `message = b64encode(_message)`) and read back with
+    `b64decode` (`_init_with_map`); for every byte string, of any length, decoding the encoding gives it
+    back — so the platform-CA and quoting-enclave certificates gathered from the device's quote envelope
+    load back without loss (`Proofs/Base64.lean`, by induction over the 3-byte groups) -/
+theorem x509_message_roundtrip (der : Bytes) : Pem.decode (Pem.encode der) = some der :=
+  Pem.decode_encode der
+
+/-- non-vacuity: the three padding cases -/
+example : Pem.encode [0x4d, 0x61, 0x6e] = "TWFu".toList ∧ Pem.encode [0x4d, 0x61] = "TWE=".toList ∧
+    Pem.encode [0x4d] = "TQ==".toList ∧ Pem.decode "TWE=".toList = some [0x4d, 0x61] := by decide +kernel
 
 end Props.C15
 end PowHsm
